@@ -120,7 +120,9 @@ def noise(rng, n: int, flavour: str | None = None) -> tuple[bytes, str]:
         out = b"/" + bytes(rng.randrange(0x80, 0x100) if rng.random() < 0.5 else rng.randrange(0x20, 0x7F) for _ in range(n)) + b"\n"
     elif flavour == "bang_tail":
         ident, _, _ = p1_ref.strict_ident(rng)
-        tail = rng.choice((b"12G4", b"zzzz", b"\xff\xfe", b"12", b"12345", b"0x1F", b" 1F2 ", bytes([rng.randrange(256) for _ in range(4)])))
+        tail = rng.choice((b"12G4", b"zzzz", b"\xff\xfe", b"12", b"12345", b"0x1F", b" 1F2 ", bytes([rng.randrange(256) for _ in range(4)]),
+                           # a long run of hexadecimal digits where four are expected (a number of thousands of digits), also with one stray character
+                           bytes(rng.choice(b"0123456789ABCDEFabcdef") for _ in range(rng.choice((16, 100, 1000, 3600, 4300, 5000, 7900)))) + rng.choice((b"", b"", b"G", b" 1"))))
         out = ident + b"\r\n1-0:1.8.0(1*kWh)\r\n!" + tail + rng.choice((b"\r\n", b"\n"))
     elif flavour == "bang_in_ident":
         out = b"/ABC5id!" + rng.choice((b"", b"AB", b"1F2E", b"\xff")) + b"\r\n1.8.0(1)\r\n!" + rng.choice((b"", b"ABCD")) + b"\r\n"
